@@ -174,6 +174,11 @@ def _one(job):
         rng.shuffle(pool)
         order = pool
     mf = merged_frames(conns, order, steps)
+    if seed % 3 == 2:                   # "... and unrelated traffic": what real captures hold besides the connections (wire/zoo.py)
+        from wire import zoo as _zoo
+        rz = random.Random(seed + 9)
+        for _nm, fr in _zoo.frames(conns[0]["flow"], rz):
+            mf.insert(rz.randrange(len(mf) + 1), (-1, fr))
     rngk = random.Random(seed + 5)
     keylog = [l for c in conns for l in c["keylog"]]
     rngk.shuffle(keylog)
